@@ -288,6 +288,24 @@ def case_eig(ctx, rng, idx):
                    256 * EPS * n * lam[0], name + "-selection-and-order", d)
         ctx.within("eig-selectors", float(np.max(np.abs(np.linalg.norm(V, axis=0) - 1))),
                    64 * EPS * n, name + "-unit-vectors", d)
+    # rank-deficient covariance (G G^H with few columns): the repeated zero
+    # eigenvalue must still give orthonormal vectors spanning the null space
+    if n >= 3:
+        r = int(rng.integers(1, n - 1))
+        G = rng.standard_normal((n, r)) if real else num.randn_c(rng, n, r)
+        Cd = G @ herm(G)
+        kk = int(rng.integers(2, n - r + 1))
+        dd = lambda: {"C": Cd, "rank": r, "n_vectors": kk}
+        ok, res = ctx.call("eig-selectors", MISC.leig, Cd, kk, cls="leig-rank-deficient-raised",
+                           detail=dd)
+        if ok:
+            V, D = res
+            nc = fro(Cd)
+            ctx.within("eig-selectors", fro(herm(V) @ V - np.eye(kk)), 1e3 * EPS * n,
+                       "leig-null-space-orthonormal", dd)
+            ctx.within("eig-selectors", fro(Cd @ V), 1e3 * EPS * n * nc, "leig-null-space", dd)
+            ctx.within("eig-selectors", float(np.max(np.abs(D))), 1e3 * EPS * n * nc,
+                       "leig-null-eigenvalues", dd)
     # diagonal update of an inverse
     dvec = 10.0 ** rng.uniform(-3, 2, n) * lam[0]
     if rng.random() < 0.2:
